@@ -41,6 +41,7 @@ type Program struct {
 	MaxConcretize int
 	MaxAlloc      int
 	MaxSymIndex   int
+	AllocEnumMax  int
 	SymMapOrder   bool
 	PoolSymbolic  bool
 	MaxPreempt    int
@@ -160,6 +161,7 @@ func Load(cfg LoadConfig) (*Program, error) {
 		MaxConcretize: 4096,
 		MaxAlloc:      1 << 16,
 		MaxSymIndex:   512,
+		AllocEnumMax:  48,
 		MaxPreempt:    3,
 		MaxThreads:    6,
 		YieldFields:   map[string]bool{},
@@ -199,7 +201,7 @@ func (P *Program) FindFunc(pkgRel, name string) (*ssa.Function, error) {
 // replace; repl is "noop", "zero" or "<pkgRel>:<Func>" naming a harness function.
 func (P *Program) AddStub(target, repl string) error {
 	switch repl {
-	case "noop", "zero":
+	case "noop", "zero", "fresh", "uf":
 		P.stubKinds[target] = repl
 		return nil
 	}
@@ -253,6 +255,12 @@ func (P *Program) lookupIntrinsic1(fn *ssa.Function, m *Machine) Intrinsic {
 	}
 	if k, ok := P.stubKinds[name]; ok {
 		m.StubsUsed[name+" -> "+k] = true
+		switch k {
+		case "fresh":
+			return func(fr *frame, args []Value) Value { return fr.m.freshResult(fn) }
+		case "uf":
+			return func(fr *frame, args []Value) Value { return fr.m.ufResult(fn, args) }
+		}
 		return func(fr *frame, args []Value) Value { return fr.m.zeroResult(fn) }
 	}
 	if h, ok := P.intrinsics[name]; ok {
@@ -284,5 +292,68 @@ func (P *Program) lookupIntrinsic1(fn *ssa.Function, m *Machine) Intrinsic {
 			m.FuncsEncoded[name] = true
 		}
 	}
+	return nil
+}
+
+// freshResult returns unconstrained symbolic values for integer/bool results (environment stub).
+func (m *Machine) freshResult(fn *ssa.Function) Value {
+	res := fn.Signature.Results()
+	mk := func(t types.Type, i int) Value {
+		if w, _, ok := intInfo(t); ok {
+			v := m.newEnvVar(fmt.Sprintf("%s.%d", fn.Name(), i), BV(w))
+			m.envVars = append(m.envVars, v)
+			return v
+		}
+		if isBoolType(t) {
+			v := m.newEnvVar(fmt.Sprintf("%s.%d", fn.Name(), i), BV(1))
+			m.envVars = append(m.envVars, v)
+			return m.tb.Eq(v, m.tb.Const(1, 1))
+		}
+		return m.zero(t)
+	}
+	switch res.Len() {
+	case 0:
+		return nil
+	case 1:
+		return mk(res.At(0).Type(), 0)
+	}
+	out := make(Tuple, res.Len())
+	for i := range out {
+		out[i] = mk(res.At(i).Type(), i)
+	}
+	return out
+}
+
+// ufResult returns an uninterpreted function of the integer arguments (and the integer
+// fields of a struct receiver) for a single integer/bool result.
+func (m *Machine) ufResult(fn *ssa.Function, args []Value) Value {
+	var ts []*Term
+	for _, a := range args {
+		switch a := a.(type) {
+		case *Term:
+			ts = append(ts, a)
+		case *Value:
+			if a != nil {
+				if st, ok := (*a).(Struct); ok {
+					for _, f := range st {
+						if t, ok := f.(*Term); ok {
+							ts = append(ts, t)
+						}
+					}
+				}
+			}
+		}
+	}
+	res := fn.Signature.Results()
+	if res.Len() != 1 {
+		m.unsupported("uf stub needs exactly one result: %s", fn)
+	}
+	if w, _, ok := intInfo(res.At(0).Type()); ok {
+		return m.tb.UF("uf."+fn.Name(), BV(w), ts...)
+	}
+	if isBoolType(res.At(0).Type()) {
+		return m.tb.UF("uf."+fn.Name(), BoolSort, ts...)
+	}
+	m.unsupported("uf stub result type %s", res.At(0).Type())
 	return nil
 }
